@@ -193,12 +193,12 @@ struct RtModel : mcx::Model {
         I->in.create(44100);
         OPN2_MIDIPlayer *d = I->in.dev;
         opn2_setNumChips(d, g_chips);
-        opn2_openBankData(d, g_bank.data(), (long)g_bank.size());
+        pl::must(opn2_openBankData(d, g_bank.data(), (long)g_bank.size()), "opn2_openBankData(generated bank)", d);
         const std::string &sn = starts[start];
         if(sn.find("alloc=") != std::string::npos) { int m = atoi(sn.c_str() + sn.find("alloc=") + 6); opn2_setChannelAllocMode(d, m); }
         if(sn.find("arp=1") != std::string::npos) opn2_setAutoArpeggio(d, 1);
         if(sn.find("chips=") != std::string::npos) { int n = atoi(sn.c_str() + sn.find("chips=") + 6); opn2_setNumChips(d, n); }
-        if(sn.find("song") != std::string::npos) { opn2_openData(d, g_song.data(), (unsigned long)g_song.size()); I->song_loaded = true; }
+        if(sn.find("song") != std::string::npos) { pl::must(opn2_openData(d, g_song.data(), (unsigned long)g_song.size()), "opn2_openData(start-state song)", d); I->song_loaded = true; }
         if(sn.find("nearfull") != std::string::npos) {
             // deterministic prefix: fill all but one chip channel with key-down and pedal-held notes of mixed ages
             size_t nch = I->in.play()->m_chipChannels.size();
